@@ -40,7 +40,7 @@ class LazyStruct:
             v = LazyStruct(self.ex, self.db, self.crate, t, name)
         elif info.get('k') in ('uint', 'int'):
             v = self.ex.fresh(name.replace('.', '_'), info.get('bits', 64))
-        elif disp.startswith('std::sync::Arc<'):
+        elif disp.startswith(('std::sync::Arc<', 'std::boxed::Box<')):
             v = BoxV(Opaque(name))
         else:
             v = Opaque(name)
